@@ -99,7 +99,7 @@ def run_job(job):
         if job.get('import_first', True):
             load_funcs()        # packages imported on the main thread (the usual server start-up)
         info['importing_thread_prec'] = decimal.getcontext().prec
-        sys.setswitchinterval(1e-5)
+        sys.setswitchinterval(1e-3)
         lock = threading.Lock()
         barrier = threading.Barrier(n)
         precs = []
